@@ -274,7 +274,7 @@ impl Case {
         let mut sched = parts[2].split_whitespace();
         c.origin = match sched.next()? {
             "b" => "batch-replay".into(),
-            "k" => "replay".into(),
+            "k" | "q" => "replay".into(),
             _ => return None,
         };
         for t in sched {
@@ -1112,7 +1112,12 @@ fn emit(rep: &mut Report, ctx: &mut Ctx, c: &Case, o: &Outcome) {
     // batch cases (didOpen/didChange/didSave/didClose only, Model/C09Batch.v): the driver runs the schedule through its
     // expansion to instr steps and adds the verdict of the shapes of C09_batch_closed_exact / C09_batch_open_exact
     let batch = c.is_batch();
-    let case_line = format!("{ini} | {hist} | {} {} | {}", if batch { "b" } else { "k" }, c.sched_tok(), urls.iter().map(|u| u.tok()).collect::<Vec<_>>().join(" "));
+    // no two handlers overlapped and everything was handled: a SEQUENTIAL history.  The driver then takes the world
+    // from the big-step specification Model/C09Seq.v (sfold) - it must be the one krun / run_seq end in - and adds which
+    // components of the entry lag (C09_sequential_exact); the same is read off the real server's last publications below
+    let overlapping = o.handlers.iter().enumerate().any(|(i, h)| o.handlers.iter().enumerate().any(|(j, g)| i < j && g.1 < h.2.unwrap_or(usize::MAX)));
+    let seq = !batch && o.valid && o.quiescent && !overlapping && !o.stuck;
+    let case_line = format!("{ini} | {hist} | {} {} | {}", if batch { "b" } else if seq { "q" } else { "k" }, c.sched_tok(), urls.iter().map(|u| u.tok()).collect::<Vec<_>>().join(" "));
     if o.stuck {
         rep.fail("stuck", "a handler neither finished nor asked the client anything within 120 s".into(), input.clone());
     }
@@ -1204,12 +1209,31 @@ fn emit(rep: &mut Report, ctx: &mut Ctx, c: &Case, o: &Outcome) {
                 .join(" ")
         };
         format!("{} # {}", impl_line.trim(), shape)
+    } else if seq {
+        // which components of the provenance of the REAL server's last word lag behind the client: text (t),
+        // dictionary files (d), parser settings (c; not observable for plain text) - for documents that are open on
+        // the client and whose last publication decodes to a check
+        let mut flags: Vec<String> = vec![];
+        for u in &urls {
+            if let (Some((Dec::T(t), _, _)), Some((_lang, text, _ign))) = (last.get(u), o.client.open.get(u)) {
+                let fd = o.fdict.get(u).cloned().unwrap_or_default();
+                let ft = t.text != *text;
+                let fdict = t.user != o.udict || t.file != fd;
+                let fc = t.pcfg.map(|p| p != o.client.ccfg).unwrap_or(false);
+                if ft || fdict || fc {
+                    flags.push(format!("{}:{}{}{}", u.tok(), if ft { "t" } else { "" }, if fdict { "d" } else { "" }, if fc { "c" } else { "" }));
+                    rep.count(&format!("sequential-lag:{}{}{}", if ft { "t" } else { "" }, if fdict { "d" } else { "" }, if fc { "c" } else { "" }));
+                } else {
+                    rep.count("sequential-lag:none");
+                }
+            }
+        }
+        format!("{} # {}", impl_line.trim(), flags.join(" "))
     } else {
         impl_line
     };
     ctx.lines.push((case_line.clone(), impl_line.trim().to_string()));
     // ---- distribution
-    let overlapping = o.handlers.iter().enumerate().any(|(i, h)| o.handlers.iter().enumerate().any(|(j, g)| i < j && g.1 < h.2.unwrap_or(usize::MAX)));
     rep.count(if overlapping { "handlers:overlapping" } else { "handlers:sequential" });
     rep.count(&format!("origin:{}", c.origin));
     rep.count_n("ops", c.ops.len() as u64);
@@ -1692,6 +1716,8 @@ enum Work {
     /// every interleaving, at client-interaction granularity, of the handlers of `batch` (all in flight
     /// together) after `prefix` was handled sequentially
     Exhaustive { base: Case, prefix: Vec<Op>, batch: Vec<Op> },
+    /// add-word commands started together, polled one poll at a time (search oracle of C09_add_word_not_lost)
+    Race(Race),
 }
 
 fn sequential_plan(n: usize) -> Vec<K> {
@@ -1787,6 +1813,7 @@ fn do_work(rep: &mut Report, ctx: &mut Ctx, w: Work) {
     match w {
         Work::Exact(c) => run_case(rep, ctx, &c),
         Work::Planned(c, plan) => run_planned(rep, ctx, c, plan),
+        Work::Race(race) => addword_race(rep, &ctx.w, &race),
         Work::Exhaustive { base, prefix, batch } => {
             let n = exhaustive(rep, ctx, &base, &prefix, &batch);
             rep.count_n(&format!("exhaustive-schedules:{}-in-flight", batch.len()), n);
@@ -1909,10 +1936,155 @@ fn thorough_works() -> Vec<Work> {
     works
 }
 
+
+// ------------------------------------------------------------------------------------------------
+// add-word races (search oracle for C09_add_word_not_lost on the real Backend)
+// ------------------------------------------------------------------------------------------------
+/// One race: (user dictionary? , word id, url) of each add-word command started together.
+#[derive(Clone, Debug)]
+struct Race {
+    cmds: Vec<(bool, usize, Url)>,
+    udict: Vec<usize>,
+    seed: u64,
+    repeats: usize,
+}
+impl Race {
+    fn to_json(&self) -> Value {
+        json!({"race": {
+            "cmds": self.cmds.iter().map(|(user, x, u)| json!([if *user { "AU" } else { "AF" }, x, u.tok()])).collect::<Vec<_>>(),
+            "udict": self.udict, "seed": self.seed, "repeats": self.repeats }})
+    }
+    fn from_json(v: &Value) -> Option<Race> {
+        let r = v.get("race")?;
+        let mut cmds = vec![];
+        for c in r["cmds"].as_array()? {
+            cmds.push((c[0].as_str()? == "AU", c[1].as_u64()? as usize, Url::parse(c[2].as_str()?)?));
+        }
+        Some(Race {
+            cmds,
+            udict: r["udict"].as_array().map(|a| a.iter().filter_map(|x| x.as_u64().map(|n| n as usize)).collect()).unwrap_or_default(),
+            seed: r["seed"].as_u64().unwrap_or(0),
+            repeats: r["repeats"].as_u64().unwrap_or(20) as usize,
+        })
+    }
+}
+
+/// everything queued on the client socket: configuration requests are answered at once, the rest is dropped
+fn drain_answering(s: &mut Session) {
+    use lsx::futures::Stream;
+    let wk = lsx::futures::task::noop_waker();
+    let mut cx = std::task::Context::from_waker(&wk);
+    while let std::task::Poll::Ready(Some(req)) = std::pin::Pin::new(&mut s.socket).poll_next(&mut cx) {
+        if req.method() == "workspace/configuration" {
+            if let Some(lsx::tower_lsp::jsonrpc::Id::Number(n)) = req.id().cloned() {
+                s.answer(n);
+            }
+        }
+    }
+}
+
+/// The add-word commands of `race` are started together on a fresh server and their futures are polled ONE POLL AT
+/// A TIME in an order drawn from the seed (bursts of 1-3 polls of one handler, pauses in between), so that their
+/// tokio::fs operations overlap the way tower-lsp overlaps handlers in flight.  When all have completed, every
+/// word must be in its dictionary file and no word that was there may be gone (C09_add_word_not_lost; before
+/// cfbe845 two commands could both load before either saved).  Repeated `repeats` times with derived seeds: the
+/// completion times of the blocking pool are not under the harness's control.
+fn addword_race(rep: &mut Report, w: &World, race: &Race) {
+    use std::task::Poll;
+    rep.eval();
+    rep.count(&format!("race:{}-commands", race.cmds.len()));
+    for rpt in 0..race.repeats.max(1) {
+        let mut r = Rng::new(race.seed.wrapping_mul(1_000_003).wrapping_add(rpt as u64));
+        let c0 = Case { cfg0: 0, disk: vec![], udict: race.udict.clone(), fdict: vec![], ops: vec![], sched: vec![], origin: "race".into() };
+        w.reset(&c0);
+        let mut s = Session::new(settings_of(&w.base, 0));
+        let mut futs: Vec<Option<HandlerFut>> = race
+            .cmds
+            .iter()
+            .map(|(user, x, u)| {
+                let cmd = if *user { "HarperAddToUserDict" } else { "HarperAddToFileDict" };
+                Some(s.start("workspace/executeCommand", json!({"command": cmd, "arguments": [word_str(*x), w.uri(*u)]}), true))
+            })
+            .collect();
+        let wk = lsx::futures::task::noop_waker();
+        let mut cx = std::task::Context::from_waker(&wk);
+        let t0 = std::time::Instant::now();
+        let mut left = futs.len();
+        let mut polls = 0u64;
+        let mut stuck = false;
+        while left > 0 {
+            let live: Vec<usize> = (0..futs.len()).filter(|i| futs[*i].is_some()).collect();
+            let i = live[r.below(live.len())];
+            for _ in 0..1 + r.below(3) {
+                if let Some(f) = futs[i].as_mut() {
+                    polls += 1;
+                    if matches!(f.as_mut().poll(&mut cx), Poll::Ready(_)) {
+                        futs[i] = None;
+                        left -= 1;
+                    }
+                }
+                drain_answering(&mut s);
+            }
+            if r.chance(1, 3) {
+                std::thread::sleep(std::time::Duration::from_micros(r.range(10, 300) as u64));
+            } else {
+                std::thread::yield_now();
+            }
+            if t0.elapsed() > std::time::Duration::from_secs(60) {
+                stuck = true;
+                break;
+            }
+        }
+        rep.monitor("race_polls", polls);
+        if stuck {
+            rep.fail("stuck", "add-word commands in flight together did not complete within 60 s (dict_write_lock never released?)".into(), race.to_json());
+            return;
+        }
+        let user_now = World::read_words(&format!("{}/cfg/user.txt", w.base));
+        let mut lost: Vec<String> = vec![];
+        for x in &race.udict {
+            if !user_now.contains(x) {
+                lost.push(format!("user-dictionary word {x} that was in the file before is gone"));
+            }
+        }
+        for (user, x, u) in &race.cmds {
+            if *user {
+                if !user_now.contains(x) {
+                    lost.push(format!("HarperAddToUserDict {x}: the word is not in the user dictionary file ({:?})", user_now));
+                }
+            } else if let Some(p) = w.fdict_path(*u) {
+                let now = World::read_words(&p);
+                if !now.contains(x) {
+                    lost.push(format!("HarperAddToFileDict {x} {}: the word is not in the file dictionary ({:?})", u.tok(), now));
+                }
+            }
+        }
+        if !lost.is_empty() {
+            rep.count("race:lost-word");
+            rep.fail("lost-word", format!("add-word commands handled concurrently (repeat {rpt}): {}", lost.join("; ")), race.to_json());
+            return;
+        }
+    }
+    rep.count("race:all-words-arrived");
+}
+
+fn random_race(r: &mut Rng, repeats: usize) -> Race {
+    let n = 2 + r.below(3);
+    let f = Url::File(0, r.below(2));
+    let mut cmds = vec![];
+    for i in 0..n {
+        // mostly one dictionary (that is where updates can be lost), sometimes both kinds mixed
+        let user = if r.chance(1, 4) { r.chance(1, 2) } else { i % 2 == 0 || r.chance(1, 2) };
+        cmds.push((user, 4 + r.below(8), if user { *r.pick(&URLS) } else { f }));
+    }
+    let udict = if r.chance(1, 2) { vec![r.below(2)] } else { vec![] };
+    Race { cmds, udict, seed: r.below(1 << 30) as u64, repeats }
+}
+
 fn main() {
     let (args, corpus) = hv::cli();
     let mut rep = Report::new(&args.out);
-    rep.rule = "histories of didOpen/didChange/didSave/didClose/didChangeWatchedFiles/executeCommand/didChangeConfiguration over 4 documents (3 files in 2 directories, 1 untitled) in 4 languages (plaintext, markdown, python, unknown), 2 settings objects, user- and file-dictionary words; schedules at client-interaction granularity executed on the real Backend: corpus (the model's refuting schedules), sequential histories, random interleavings with <= 4 handlers in flight, bursts of 4 messages handled together, batches of didOpen/didChange/didSave/didClose with the didOpen in flight (run on the instruction-level model, shape verdicts compared with the real server), a malformed stream (messages for closed documents, double opens, inexecutable schedules); thorough adds ALL interleavings of every ordered pair / triple of the 5 messages of a session started in the batch (plain and source file), and ALL interleavings of every ordered pair of 10 messages (2 in flight) and of every ordered triple of 3-4 messages (3 in flight) after 4 prefixes (saved file + second document, dirty file, untitled + file, source code). non-trivial = distinct case with >= 2 messages and >= 1 publication".into();
+    rep.rule = "histories of didOpen/didChange/didSave/didClose/didChangeWatchedFiles/executeCommand/didChangeConfiguration over 4 documents (3 files in 2 directories, 1 untitled) in 4 languages (plaintext, markdown, python, unknown), 2 settings objects, user- and file-dictionary words; schedules at client-interaction granularity executed on the real Backend: corpus (the model's refuting schedules), sequential histories, random interleavings with <= 4 handlers in flight, bursts of 4 messages handled together, batches of didOpen/didChange/didSave/didClose with the didOpen in flight (run on the instruction-level model, shape verdicts compared with the real server), a malformed stream (messages for closed documents, double opens, inexecutable schedules); 2-4 add-word commands started together and polled one poll at a time in a random order (every word must arrive in its dictionary file); thorough adds ALL interleavings of every ordered pair / triple of the 5 messages of a session started in the batch (plain and source file), and ALL interleavings of every ordered pair of 10 messages (2 in flight) and of every ordered triple of 3-4 messages (3 in flight) after 4 prefixes (saved file + second document, dirty file, untitled + file, source code). non-trivial = distinct case with >= 2 messages and >= 1 publication".into();
     let base = format!("/tmp/w-c09-{}", std::process::id());
     let rt = runtime();
     let _g = rt.enter();
@@ -1921,6 +2093,13 @@ fn main() {
     let _ = std::fs::remove_dir_all(&base);
     let mut works: Vec<Work> = vec![];
     for v in &corpus {
+        if v.get("race").is_some() {
+            match Race::from_json(v) {
+                Some(race) => works.push(Work::Race(race)),
+                None => rep.fail("bad-input", "race input does not parse".into(), v.clone()),
+            }
+            continue;
+        }
         // a correspondence replay file carries the diverging case lines
         if let Some(line) = v.get("smallest_diverging_case").and_then(|x| x.get("case")).and_then(|x| x.as_str()) {
             let mut lines = vec![line.to_string()];
@@ -1954,6 +2133,10 @@ fn main() {
     }
     if args.replay.is_none() {
         let mut r = Rng::new(args.seed);
+        // add-word commands racing for a dictionary file (dict_write_lock)
+        for _ in 0..args.scale(24, 300) {
+            works.push(Work::Race(random_race(&mut r, 3)));
+        }
         // sequential histories
         for _ in 0..args.scale(120, 500) {
             let len = r.range(2, 9);
